@@ -18,6 +18,10 @@ class Violation(Exception):
         self.detail = str(detail)[:2000]
 
 
+class Discard(Exception):
+    """The run cannot be judged any further (counted, never a verdict)."""
+
+
 class HarnessError(Exception):
     """The harness itself is broken (never reported as a violation)."""
 
@@ -161,6 +165,9 @@ def execute(engine, prop, cfg, rng=None, ops=None, max_ops=None, oplog=None):
             events.append(world.finish())
         except Violation as v:
             res.violation = v
+            res.step = i
+        except Discard as d:
+            world.discarded = "aborted:" + str(d)[:60]
             res.step = i
         finally:
             try:
